@@ -356,6 +356,7 @@ def r7(ctx):
 
 
 def r10(ctx):
+    ctx.mark('arbitration-disarm', 'C04.R10')
     ctx.rule('C04.R10', 'a failed start of an arbitration leaves the device disarmed: in every startArbitration implementation that '
              'stores the master address, each return of a result that is not known to be RESULT_OK is reached only with '
              'm_arbitrationMaster reset to SYN - otherwise isArbitrating() stays true, no further request is started and the '
